@@ -344,4 +344,28 @@ def Store.writerSpecs (s : Store) : List GroupSpec :=
 def reencodeStoreOwnOk (bytes : List UInt8) : Bool :=
   storeBytes (openStore bytes).writerSpecs == bytes
 
+/-! ### the whole store as the writer lays it out -/
+
+/-- mirrors: BlockAddrStoreWriter::write_block_meta + serialize — addresses are buffered, a store
+block is flushed every `n = STORE_BLOCK_LEN` addresses, the rest at the end -/
+def chunksOf {α} (n : Nat) : Nat → List α → List (List α)
+  | 0, _ => []
+  | fuel + 1, l =>
+    match l with
+    | [] => []
+    | a :: r => (a :: r).take n :: chunksOf n fuel ((a :: r).drop n)
+
+/-- mirrors: flush_block — the first buffered address is the reference, the final end is the end
+of the last buffered address, slopes and widths from `find_best_slope` -/
+def groupOfChunk : List BlockAddr → GroupSpec
+  | [] => ⟨0, 0, 0, 0, ⟨0, 0, 0⟩, [], 0⟩
+  | ref :: more => mkGroup ref more (more.getLast?.getD ref).stop
+
+def writerStore (addrs : List BlockAddr) : List GroupSpec :=
+  (chunksOf Gen.STORE_BLOCK_LEN addrs.length addrs).map groupOfChunk
+
+/-- the store region rebuilt from nothing but the decoded address list = the file bytes -/
+def rebuildStoreOk (bytes : List UInt8) : Bool :=
+  storeBytes (writerStore (openStore bytes).all) == bytes
+
 end TantivyModel.SSTable
